@@ -1,20 +1,24 @@
 use crate::engine::{DynModel, Report, Tier};
 
-pub mod c01;
-
-pub fn models(id: &str, tier: Tier, seed: u64) -> Option<Vec<Box<dyn DynModel>>> {
-    Some(match id {
-        "C01" => c01::models(tier, seed),
-        _ => return None,
-    })
+macro_rules! props {
+    ($(($id:literal, $m:ident)),* $(,)?) => {
+        $(pub mod $m;)*
+        pub fn models(id: &str, tier: Tier, seed: u64) -> Option<Vec<Box<dyn DynModel>>> {
+            Some(match id {
+                $($id => $m::models(tier, seed),)*
+                _ => return None,
+            })
+        }
+        fn describe(id: &str, tier: Tier, r: &mut Report) {
+            match id {
+                $($id => $m::describe(tier, r),)*
+                _ => {}
+            }
+        }
+    };
 }
 
-fn describe(id: &str, tier: Tier, r: &mut Report) {
-    match id {
-        "C01" => c01::describe(tier, r),
-        _ => {}
-    }
-}
+props!(("C01", c01), ("C02", c02), ("C03", c03), ("C04", c04));
 
 pub fn run(id: &str, tier: Tier, seed: u64, r: &mut Report) -> bool {
     let Some(ms) = models(id, tier, seed) else {
